@@ -167,7 +167,7 @@ func makeFeeds(g *ref.Grammar, r *rng.R, sz feedSizes) []feedInfo {
 		})
 	}
 	// mutated sentences
-	for i := 0; i < sz.Mutants && len(sentences) > 0; i++ {
+	for i := 0; i < sz.Mutants && len(sentences) > 0 && len(s.Terms) > 0; i++ {
 		base := sentences[r.Intn(len(sentences))]
 		m := append([]ref.Tok(nil), base...)
 		anyTerm := func() ref.Tok { return ref.Tok{Term: r.Intn(len(s.Terms)), V: val()} }
@@ -467,12 +467,19 @@ func grammarsForParsers(ctx *Ctx, r *rng.R, n int, wantConflictFree bool) []*wl.
 	for k := 0; len(out) < n && k < 60*n; k++ {
 		rr := r.Sub("g", k)
 		var s *wl.Spec
-		switch rr.Intn(5) {
+		shared := false
+		switch rr.Intn(7) {
 		case 0:
 			cl := wl.Classics()
 			s = wl.VaryClassic(cl[rr.Intn(len(cl))], rr.Sub("v"))
 		case 1:
 			s = wl.OperatorTable(rr.Sub("ot")).Spec
+		case 2:
+			s = wideSpec(rr.Sub("wide"))
+		case 3:
+			// several rules with byte-identical action text (evaluated over a table-driven derivation)
+			s = wl.RandomCFG(rr.Sub("cfg"), wl.CFGParams{MaxNT: 4, MaxT: 4, MaxExtra: 5, MaxRhs: 3, Literals: false})
+			shared = true
 		default:
 			s = wl.RandomCFG(rr.Sub("cfg"), wl.CFGParams{MaxNT: 4, MaxT: 4, MaxExtra: 5, MaxRhs: 4, Literals: true, Prec: rr.Chance(1, 3)})
 		}
@@ -487,10 +494,13 @@ func grammarsForParsers(ctx *Ctx, r *rng.R, n int, wantConflictFree bool) []*wl.
 		if !ok {
 			continue
 		}
-		if wantConflictFree && la.Conflicts(g).Cells > 0 {
+		if (wantConflictFree || shared) && la.Conflicts(g).Cells > 0 {
 			continue
 		}
-		if s.Family != "F3" {
+		if shared {
+			wl.DecorateShared(s, rr.Sub("dec"))
+			s.Family = "shared-actions"
+		} else if s.Family != "F3" && s.Family != "wide" {
 			wl.DecorateInt(s, rr.Sub("dec"))
 		}
 		out = append(out, s)
